@@ -121,7 +121,7 @@ func init() {
 			}
 			return 48
 		},
-		Floors: map[string]int64{"executions_compared": 1000, "fresh_process_runs": 100, "register_writes_observed": 1000, "config:1cpu": 20, "config:allcpu": 20},
+		Floors: map[string]int64{"executions_compared": 1000, "fresh_process_runs": 100, "register_writes_observed": 300, "config:1cpu": 20, "config:allcpu": 20},
 		Run:    runC33,
 	})
 }
